@@ -251,7 +251,7 @@ def build_cases(spec, tier, uni, rnd):
     total = len(uniq)
     owned = [t for t in uniq if t.get("own")]
     uniq = [t for t in uniq if not t.get("own")]
-    cap = max(1, spec.cap[tier] - len(owned))
+    cap = max(spec.cap[tier] - len(owned), spec.cap[tier] // 3)
     if os.environ.get("VERIF_CAP"):
         cap = int(os.environ["VERIF_CAP"])
     exhaustive = not capped
